@@ -11,6 +11,10 @@ stdin: {"mode": ..., "cases": [...]}
                    returns the spectra (data + mask) of all jobs
   mode "export"  : case = {id, ops, ns, pts, Nref, gen_time}: runs a native dadi program with the event log on, exports it with
                    dadi.Demes.output, re-imports with from_demes (logged); returns both spectra, both call logs, the exported graph
+  mode "slice"   : case = {id, graph | yaml, ts: [t...]}: calls dadi.Demes.DemesUtil.slice(g, t) for every t; returns the resolved input
+                   graph, its YAML text, and per t the resolved sliced graph with probes: the size of every deme of the sliced
+                   graph at times u (epoch ends, points inside every epoch) next to `demes`' own Deme.size_at(u + t) of the input
+                   graph, and the migration rate in force for every ordered pair of demes at times u next to the input graph's
   native ops     : ["phi_1D", nu] ["integrate", T, [sizefn..], [[M row]..] | None, [frozen..] | None] ["split", k] ["admix_new", [f..]]
                    ["pulse", dest, [f..]] ["remove", k] ["reorder", [order]] ;  sizefn = ["c", v] | ["e", v0, v1] | ["l", v0, v1]
 stdout (last line): list of results
@@ -272,6 +276,53 @@ def run_explicit_frozen(c):
     phi = PhiManip.reorder_pops(phi, new_order)
     return dadi.Spectrum.from_phi(phi, ns, [xx] * len(sampled), pop_ids=sampled)
 
+def _rate_at(gr, s, d, u):
+    r = 0.0
+    for m in gr.migrations:
+        if m.source == s and m.dest == d and m.start_time > u >= m.end_time:
+            r = float(m.rate)
+    return r
+
+def run_slice(c):
+    from dadi.Demes import DemesUtil
+    g = load_graph(c)
+    rec = {'orig': graph_dict(g), 'yaml': demes.dumps(g), 'slices': []}
+    for t in c['ts']:
+        one = {'t': t}
+        try:
+            gs = DemesUtil.slice(load_graph(c), t)
+            one['sliced'] = graph_dict(gs)
+            sp = []
+            for d in gs.demes:
+                us = set()
+                for e in d.epochs:
+                    us.add(float(e.end_time))
+                    if math.isinf(e.start_time):
+                        us.add(float(e.end_time) + 1.0)
+                    else:
+                        us.add((e.start_time + e.end_time) / 2); us.add(e.end_time + (e.start_time - e.end_time) * 0.75)
+                for u in sorted(us):
+                    sp.append([d.name, u, float(d.size_at(u)), float(g[d.name].size_at(u + t)) if d.name in g else None])
+            one['size_probes'] = sp
+            mp = []
+            for (s_, d_) in sorted({(m.source, m.dest) for m in g.migrations}):
+                us = {0.0}
+                for m in g.migrations:
+                    if m.source == s_ and m.dest == d_:
+                        for x in (m.start_time, m.end_time):
+                            if not math.isinf(x):
+                                us.add(max(0.0, x - t)); us.add(max(0.0, x - t) + 0.0625)
+                                if x - t - 0.0625 >= 0:
+                                    us.add(x - t - 0.0625)
+                for u in sorted(us):
+                    mp.append([s_, d_, u, _rate_at(gs, s_, d_, u), _rate_at(g, s_, d_, u + t)])
+            one['mig_probes'] = mp
+        except Exception as e:
+            one['error'] = type(e).__name__ + ': ' + str(e)[:300]
+            one['tb'] = traceback.format_exc()[-800:]
+        rec['slices'].append(one)
+    return rec
+
 def norm_log(log):
     return list(log)
 
@@ -330,6 +381,8 @@ def main():
                 rec['jobs'] = res
             elif mode == 'export':
                 rec.update(run_export(c))
+            elif mode == 'slice':
+                rec.update(run_slice(c))
             else:
                 raise ValueError(mode)
         except Exception as e:
